@@ -57,7 +57,7 @@ def render(sh, tables):
         cols = run['cols']
         L.append(' '.join(cols) + ' ')
         for row in tables[k]['rows']:
-            L.append(' '.join(('%8d' % val(c, x)) if c in INTCOLS else ('%12s' % repr(val(c, x))) for c, x in zip(cols, row)))
+            L.append(' '.join(('%8d' % val(c, x)) if c in INTCOLS else ('%12s' % ('%.8g' % val(c, x))) for c, x in zip(cols, row)))
         if last and sh['trunc'] >= 0:
             break                                   # the process died here
         L.append('Loop time of 0.0123 on 1 procs for %d steps with 4 atoms' % (10 * (run['n'] - 1)))
